@@ -399,10 +399,7 @@ func (c *C02Case) Run() string {
 				return "ReturnTensor(view) panicked: " + pan
 			}
 			// whatever the pool got back is handed out again and overwritten
-			for _, sh := range [][]int{{7, 6}, {6, 7, 8}, {9, 8, 7, 6}, {11}, {12, 13}} {
-				x := tensor.New(tensor.Of(tensor.Int), tensor.WithShape(sh...))
-				_ = x.T()
-			}
+			dirtyPools()
 			if msg := verify(fmt.Sprintf("after returning view %d to the pool", len(chain))); msg != "" {
 				return msg
 			}
